@@ -5,8 +5,8 @@ import pktgen, scen
 
 class Prop(PropBase):
     pid = 'C06'
-    kernels = []
-    vo_targets = ['Props/Properties_C06.vo', 'Proofs/DriverInv.vo', 'Proofs/Stream.vo']
+    kernels = ['fx_splitFrame', 'fx_setPointCloudHeader', 'fx_getPointCloud']
+    vo_targets = ['Props/Properties_C06.vo', 'Proofs/DriverInv.vo', 'Proofs/Stream.vo', 'Proofs/Handover.vo']
     prop_files = ['Props/Properties_C06.v']
     rule = ('streams for all 17 LidarTypes x 3 split modes x dense/NaN-kept with adversarial get-callback scripts: fresh buffers, recycled buffers holding 3 stale points '
             'and garbage header fields, the same id again right after hand-back, bursts of nulls; oracle on the implementation output = the `scan` rules '
